@@ -104,14 +104,12 @@ impl<R: Read + Unpin> AsyncRead for ReadToAsync<R> {
         _cx: &mut Context<'_>,
         buf: &mut ReadBuf<'_>,
     ) -> Poll<io::Result<()>> {
-        let extra_filled = unsafe {
-            self.get_mut()
-                .0
-                .read(&mut *(buf.unfilled_mut() as *mut [_] as *mut [u8]))
-        };
+        // `initialize_unfilled` so the reader gets a plain slice and what it fills counts as
+        // initialized: `set_filled` panics when asked to go beyond that.
+        let extra_filled = self.get_mut().0.read(buf.initialize_unfilled());
         Poll::Ready(match extra_filled {
             Ok(extra_filled) => {
-                buf.set_filled(buf.filled().len() + extra_filled);
+                buf.advance(extra_filled);
                 Ok(())
             }
             Err(e) => Err(e),
